@@ -161,4 +161,28 @@ Proof.
     rewrite has_land, (has_bnot_own _ d Hd), (king_table s Hs), has_of_list, mem_filter, (color_at_abs b c d I).
     unfold attacks_from. rewrite (piece_at_abs b s I), Hc. reflexivity.
 Qed.
+
+(* the masks hold only squares of the board *)
+Lemma land_bnot_small b m X x : MaskInv b -> (forall y, has m y = true -> y < 64) -> has (N.land X (bnot m)) x = true -> x < 64.
+Proof.
+  intros I Hm H. rewrite has_land, has_bnot in H. apply andb_prop in H. destruct H as [_ H].
+  destruct (N.ltb_spec x 64) as [|Hge]; [assumption|]. rewrite xorb_false_r in H. now apply Hm.
+Qed.
+Lemma pseudo_mask_small b t s M : MaskInv b -> s < 64 -> piece_moves_mask b t s = Ok M -> forall x, has M x = true -> x < 64.
+Proof.
+  intros I Hs E x Hx.
+  assert (Hown : forall y, has (cmask b (b_stm b)) y = true -> y < 64) by (intros y; apply (mi_cmask_small b _ y I)).
+  assert (Hall : forall y, has (m_all b) y = true -> y < 64) by (intros y; apply (mi_all_small b y I)).
+  assert (Hsl : forall idx M0, truncate_rays b idx s = Ok M0 -> has M0 x = true -> x < 64).
+  { intros idx M0 E0 H0. unfold truncate_rays in E0. apply bind_ok in E0. destruct E0 as (lg & _ & [= <-]). exact (land_bnot_small b _ lg x I Hown H0). }
+  unfold piece_moves_mask in E. destruct t; try (eapply Hsl; eauto; fail).
+  - injection E as <-. rewrite !has_lor in Hx. apply orb_prop in Hx. destruct Hx as [Hx|Hx]; [apply orb_prop in Hx; destruct Hx as [Hx|Hx]|].
+    + exact (land_bnot_small b _ _ x I Hall Hx).
+    + destruct (is_blank _); [rewrite has_0 in Hx; discriminate|]. exact (land_bnot_small b _ _ x I Hall Hx).
+    + rewrite has_land in Hx. apply andb_prop in Hx. destruct Hx as [Hx _]. rewrite (pawn_cap_table _ s Hs) in Hx.
+      unfold geo_pawn_cap in Hx. rewrite has_of_list in Hx. apply mem_true in Hx. unfold steps in Hx. apply in_flat_map in Hx.
+      destruct Hx as (o & _ & Hx). destruct (step s o) eqn:Es; [|destruct Hx]. destruct Hx as [<-|[]]. eapply step_lt; eauto.
+  - injection E as <-. exact (land_bnot_small b _ _ x I Hown Hx).
+  - injection E as <-. exact (land_bnot_small b _ _ x I Hown Hx).
+Qed.
 End P.
